@@ -276,6 +276,18 @@ def check_one(src):
         dup_b, dup_o = duplicate_decls(B), duplicate_decls(o[1])
         if dup_o - dup_b:
             sig("strsize:duplicate-decl", f"with default_str_storage=40 these identifiers are declared twice: {sorted(dup_o - dup_b)}")
+    # 5a. the size value only appears as the number in STRING[n]: every other size gives the size-40 text with that number
+    if o[0] == "ok":
+        for n in (1, 16, 31, 33, 255, 32766):
+            on = conv(default_str_storage=n)
+            out["pairs"] += 1
+            if on[0] != "ok":
+                sig(f"strsize:status:size-{'below' if n < 32 else 'above'}-32", f"default_str_storage={n}: {on}")
+            elif on[1].replace(f"STRING[{n}]", "STRING[40]") != o[1]:
+                a, b = on[1].replace(f"STRING[{n}]", "STRING[40]").split("\n"), o[1].split("\n")
+                d = [(x, y) for x, y in itertools.zip_longest(a, b) if x != y][:1]
+                sig(f"strsize:value-matters:size-{'below' if n < 32 else 'above'}-32", f"default_str_storage={n} is not the size-40 output with the number replaced: {d}")
+                break
     # 5b. each option does the same thing whatever the other options are: the three text rules again from bases in which
     # one OTHER option is already changed (size 40 / pre-initialisation off / filtering on)
     b40, bz, bl = conv(default_str_storage=40), conv(initialize_vars=False), conv(filter_unused_linenum=True)
@@ -476,6 +488,51 @@ def cli_size_symbolic(ctx):
         shutil.rmtree(tmp, ignore_errors=True)
 
 
+def procname_lemma(ctx):
+    """`names the procedure after the input file`: z3 decides that the tool's procedure-name pattern accepts every stem
+    made of letters, digits, `_` and `-` (up to 64 characters; OS-9 itself is not modelled); a model is replayed through
+    start() and the header of the written file"""
+    import z3
+
+    from coco import decb_to_b09
+    from coco.b09 import grammar as G
+
+    from vf import rxsmt
+
+    pat = G.PROCNAME_REGEX.pattern
+    ctx.encode("grammar.PROCNAME_REGEX", pat)
+    n = z3.String("stem")
+    ch = z3.Union(z3.Range("a", "z"), z3.Range("A", "Z"), z3.Range("0", "9"), z3.Re("_"), z3.Re("-"))
+    ctx.stats["obligations"] += 1
+    v, m = smt.check([z3.InRe(n, z3.Plus(ch)), z3.Length(n) <= 64, z3.Not(z3.InRe(n, rxsmt.lang(pat)))], 30000, True)
+    ctx.stats[v] += 1
+    ctx.sample({"lemma": "every stem over [A-Za-z0-9_-], 1..64 characters, is a procedure name for the tool", "pattern": pat, "verdict": v})
+    if v == "unknown":
+        ctx.note_inconclusive("procedure-name lemma")
+        return
+    if v != "sat":
+        return
+    stem = rxsmt.z3str(m.eval(n, True).as_string())
+    tmp = tempfile.mkdtemp(prefix="c11pn")
+    try:
+        inp, outp = os.path.join(tmp, stem + ".bas"), os.path.join(tmp, "o.b09")
+        with open(inp, "w") as f:
+            f.write("10 PRINT 1\n")
+        decb_to_b09.start([inp, outp])
+        with open(outp, newline="") as f:
+            text = f.read()
+        ctx.stats["traces_validated_against_impl"] += 1
+        if f"procedure {stem}\r" not in text:
+            heads = re.findall(r"(?m)procedure (\S+)\r", text)
+            ctx.violation(f"cli-procname:legal-stem-not-kept:length-{'over' if len(stem) > 8 else 'up-to'}-8", f"file {stem + '.bas'!r} ({len(stem)} characters): the program's procedure is named {heads[-1] if heads else None!r}", {"file": stem + ".bas"})
+        else:
+            raise HarnessError(f"procedure-name model {stem!r} did not replay")
+    finally:
+        import shutil
+
+        shutil.rmtree(tmp, ignore_errors=True)
+
+
 def run(tier):
     ctx = Ctx("C11", tier, "translation_validation", technique="pairs of real convert() outputs differing in one option: text equality modulo the documented difference + BASIC09<->BASIC09 equivalence decided by z3 over the symbolic machine; CLI flag mapping enumerated with a recording stub")
     smt.reset_stats()
@@ -496,6 +553,7 @@ def run(tier):
         ctx.sample({"source": r["src"], "status": r.get("status"), "pairs": r["pairs"]})
     cli(ctx)
     cli_size_symbolic(ctx)
+    procname_lemma(ctx)
     file_path(ctx)
     history(ctx)
     ctx.add_solver_stats(smt.STATS.export())
